@@ -2,6 +2,7 @@ import Driver.Util
 import ProcSim.Model.Sim
 import ProcSim.Spec.Sim
 import ProcSim.Spec.Queue
+import ProcSim.Model.Loader
 /-!
 Op `"sim"`:
 ```
@@ -88,9 +89,17 @@ def kJson (cm ci : Ctx S) : Json :=
     ("C04", pi04 cm == pi04 ci), ("C05", pi05 cm == pi05 ci), ("C06", pi06 cm == pi06 ci),
     ("C07", pi07 cm == pi07 ci), ("C08", pi08 cm == pi08 ci)]
 
+/-- C01's second sentence needs every access to be *shown*: in a returned diagram every instruction is unstalled once in
+a read-locking unit and once in a write-locking unit (theorem `C01_access_exists`); otherwise "replaying reads and writes
+in diagram order" is not even defined. Evaluated next to the clauses of `Spec.C01`. -/
+def accessesShown (c : Ctx S) : Bool :=
+  c.stalled || (List.range c.n).all (fun i => !(c.accs false i).isEmpty && !(c.accs true i).isEmpty)
+
 def oJson (c : Ctx S) : Json :=
   Json.mkObj ((simClauses c).map (fun (id, cl) => (id, match cl.firstFail with
-    | none => Json.null
+    | none => if id == "C01" && !accessesShown c
+              then Json.str "every instruction of a returned diagram is shown performing its read and its write access"
+              else Json.null
     | some s => Json.str s)))
 
 def statsJson (c : Ctx S) : Json :=
@@ -105,7 +114,18 @@ def handleSim (j : Json) : Except String Json := do
   let prog ← (← getArr j "prog").mapM parseInstr
   -- `wf` = the properties' precondition on the processor AND the program invariant of `HwInstruction` (sources are a
   -- de-duplicated tuple), which the hazard theorems take as the explicit hypothesis `ProgOK`
-  let wf := wfProc p && prog.all (fun i => decide i.srcs.Nodup)
+  -- Applicability must not depend on something the code under test produces: the ORDER of `internal_units` /
+  -- `out_ports` is established by the `ProcessorDesc` constructor (property C12), so the well-formedness of the INPUT is
+  -- judged on the unit graph only (`wfGraph`): with a correct constructor it coincides with `wfProc`
+  -- (`Loader.C12_mkProc_order`), with a broken one the simulator properties are still evaluated — and fail.
+  let graphOK := p.dests.all (fun d => d.preds.all (fun q => decide (q ∈ p.allUnits.map (·.name)) && !isOutB p q))
+  let acyclic := (Loader.postOrder p.dests).isSome
+  let routesOK := (allCaps p).all (fun c => (p.inBoundary.filter (fun u => decide (c ∈ u.caps))).all (fun s =>
+      (routesFrom p c p.allUnits.length s).all routeLocksOK))
+  let wfGraph := decide (p.allUnits.map (·.name)).Nodup && p.allUnits.all (fun u => !u.caps.isEmpty) && graphOK &&
+      acyclic && routesOK && p.dests.all (fun d => decide d.preds.Nodup)
+  let wf := wfGraph && prog.all (fun i => decide i.srcs.Nodup)
+  let wfStrict := wfProc p
   let out := simulate p prog
   let (mkind, mtbl, mfault) : String × List (Util S) × String := match out with
     | .done t => ("done", t, "")
@@ -115,7 +135,7 @@ def handleSim (j : Json) : Except String Json := do
   let modelJ := Json.mkObj [("outcome", mkind), ("table", tableJson mtbl), ("fault", mfault)]
   match optField j "impl" with
   | none =>
-    return Json.mkObj [("wf", wf), ("model", modelJ), ("o", if mkind == "fault" then Json.null else oJson cm),
+    return Json.mkObj [("wf", wf), ("orderOK", wfStrict), ("model", modelJ), ("o", if mkind == "fault" then Json.null else oJson cm),
                        ("stats", statsJson cm)]
   | some ij =>
     let ikind ← getStr ij "outcome"
@@ -125,14 +145,14 @@ def handleSim (j : Json) : Except String Json := do
       let k := if mkind == "fault" then
           Json.mkObj (["C01","C02","C03","C04","C05","C06","C07","C08"].map (fun id => (id, Json.bool false)))
         else kJson cm ci
-      return Json.mkObj [("wf", wf), ("model", modelJ), ("k", k), ("o", oJson ci), ("stats", statsJson ci)]
+      return Json.mkObj [("wf", wf), ("orderOK", wfStrict), ("model", modelJ), ("k", k), ("o", oJson ci), ("stats", statsJson ci)]
     else
       -- another exception escaped from the implementation: only C08 speaks about that
       let ids := ["C01","C02","C03","C04","C05","C06","C07"]
       let k := Json.mkObj (ids.map (fun id => (id, Json.bool true)) ++ [("C08", Json.bool (mkind == "fault"))])
       let o := Json.mkObj (ids.map (fun id => (id, Json.null)) ++
         [("C08", Json.str "an exception other than the stall error escaped")])
-      return Json.mkObj [("wf", wf), ("model", modelJ), ("k", k), ("o", o), ("stats", statsJson cm)]
+      return Json.mkObj [("wf", wf), ("orderOK", wfStrict), ("model", modelJ), ("k", k), ("o", o), ("stats", statsJson cm)]
 
 /-! Op `"queue"` (property C19): the harness explores the implementation's state graph of one register queue.
 ```
